@@ -633,7 +633,8 @@ func (p *InlineParser) parseBackslash(state *inlineState, start int) (end int) {
 		})
 		return end
 	}
-	end = start + 2
+	// A backslash before any other character is a literal backslash.
+	end = start + 1
 	state.addToRoot(&Inline{
 		kind: TextKind,
 		span: Span{
